@@ -76,6 +76,10 @@ func (s *vC29Store) ReadAllNodes(threshold uint64, withState bool) []*common.Nod
 	return out
 }
 
+func (s *vC29Store) ListNodeWorks(cids []crypto.Hash, day uint32) (map[crypto.Hash][2]uint64, error) {
+	return map[crypto.Hash][2]uint64{}, nil
+}
+
 func (s *vC29Store) AddNodeOperation(tx *common.VersionedTransaction, timestamp, threshold uint64, finalized bool) error {
 	return nil
 }
@@ -353,6 +357,13 @@ func (m *vC29Monitor) elect(ns *vC29Nodes, others []*Node, part string, op int, 
 	}
 	o := vC29Ops[op]
 	var ea crypto.Hash
+	// replica A also answers read-only queries in between (the work listing of that day, as the RPC does); the other
+	// replicas never do
+	if now > ns.a.Epoch && now%3 == 0 {
+		if p, _, _ := verifkit.Guard(func() { _, _ = ns.a.ListMintWorks((now - ns.a.Epoch) / OneDay) }); !p {
+			r.Count("elections_after_a_read-only_work_listing_on_replica_A", 1)
+		}
+	}
 	panicked, val, stack := verifkit.Guard(func() { ea = ns.a.electSnapshotNode(o.op, now) })
 	if panicked {
 		r.Violation("C29|election|panic "+verifkit.PanicSite(stack), fmt.Sprintf("electSnapshotNode(%s) panicked with %d accepted nodes: %v", o.name, len(v.accepted), val),
